@@ -114,7 +114,9 @@ func c16Script(root p9.File, seed uint64, steps int) []c16res {
 			wn, werr := f.WriteAt(data, 0)
 			buf := make([]byte, 64)
 			rn, rerr := f.ReadAt(buf, 0)
-			add("create+rw "+d+"/"+n, fmt.Sprintf("q%d w%d:%s r%q:%s", cn.id(q.Path), wn, eno(werr), buf[:rn], eno(rerr)))
+			// and once more at the end of the file: a read that delivers nothing
+			en, eerr := f.ReadAt(make([]byte, 16), int64(maxI(rn, 0)))
+			add("create+rw "+d+"/"+n, fmt.Sprintf("q%d w%d:%s r%q:%s eof%d:%s", cn.id(q.Path), wn, eno(werr), buf[:rn], eno(rerr), en, eno(eerr)))
 			f.Close()
 		case 2: // read existing
 			f, err := walkTo(path(d, n)...)
@@ -125,7 +127,8 @@ func c16Script(root p9.File, seed uint64, steps int) []c16res {
 			_, _, oerr := f.Open(p9.ReadOnly)
 			buf := make([]byte, 64)
 			rn, rerr := f.ReadAt(buf, 0)
-			add("open+read "+d+"/"+n, fmt.Sprintf("%s %q:%s", eno(oerr), buf[:maxI(rn, 0)], eno(rerr)))
+			en, eerr := f.ReadAt(make([]byte, 16), int64(maxI(rn, 0)))
+			add("open+read "+d+"/"+n, fmt.Sprintf("%s %q:%s eof%d:%s", eno(oerr), buf[:maxI(rn, 0)], eno(rerr), en, eno(eerr)))
 			f.Close()
 		case 3: // getattr
 			f, err := walkTo(path(d, n)...)
